@@ -133,4 +133,19 @@ ASSUME CoupledRegion ==
                  /\ CoupledStable(<< 9409, 10000 >>, RI(1), << Mild >>)
                  /\ CoupledStable(<< 9801, 10000 >>, RI(1), << CZero >>)
                  /\ CoupledStable(<< 9801, 10000 >>, RI(2), << Mild >>)
+\* the bound is a SUM over the cell's poles: two Drude poles (wp*dt = 3/4, load 9/64 each) are outside at cf = 0.9 although
+\* each alone is inside; three mixed poles likewise; halving the coupling (wp*dt = 1/2) brings the pair inside
+Dru34(g) == Coef(Unified([ ptype |-> "drude", v |-> << << 3, 4 >>, g >> ]), "ok")
+Dru12(g) == Coef(Unified([ ptype |-> "drude", v |-> << << 1, 2 >>, g >> ]), "ok")
+Lor12 == Coef(Unified([ ptype |-> "lorentz", v |-> << << 1, 2 >>, << 1, 100 >>, << 2, 1 >> >> ]), "ok")
+ASSUME CoupledSum ==
+    /\ SumLoad(<< Dru34(<< 1, 100 >>), Dru34(<< 1, 50 >>) >>, 2) = << 9, 32 >>
+    /\ CoupledStable(<< 81, 100 >>, RI(1), << Dru34(<< 1, 100 >>) >>) /\ CoupledStable(<< 81, 100 >>, RI(1), << Dru34(<< 1, 50 >>) >>)
+    /\ ~CoupledStable(<< 81, 100 >>, RI(1), << Dru34(<< 1, 100 >>), Dru34(<< 1, 50 >>) >>)
+    /\ CoupledStable(<< 1, 4 >>, RI(1), << Dru34(<< 1, 100 >>), Dru34(<< 1, 50 >>) >>)
+    /\ SumLoad(<< Lor12, Dru12(<< 1, 100 >>), Dru12(<< 1, 10 >>) >>, 3) = << 31, 120 >>
+    /\ ~CoupledStable(<< 81, 100 >>, RI(1), << Lor12, Dru12(<< 1, 100 >>), Dru12(<< 1, 10 >>) >>)
+    /\ CoupledStable(<< 9801, 10000 >>, RI(2), << Lor12, Dru12(<< 1, 100 >>), Dru12(<< 1, 10 >>) >>)
+    /\ CoupledStable(<< 81, 100 >>, RI(1), << Dru12(<< 1, 100 >>), Dru12(<< 1, 50 >>) >>)
+    /\ CoupledStable(<< 81, 100 >>, RI(1), << CZero, Dru12(<< 1, 100 >>), CZero >>)            \* padded slots add nothing
 =============================================================================
